@@ -9,6 +9,29 @@ FE = "src/evaluator/flop_exhaustive.rs"
 SD = "src/evaluator/showdown.rs"
 
 MUTANTS = [
+    M("c04-write-before-exhaust", ["C04"], (FE, """        if self.current_turn_index >= self.turn_to && self.current_river_index >= self.river_to {
+            return None;""", """        if self.current_turn_index >= self.turn_to && self.current_river_index >= self.river_to {
+            self.turn_to = 48;
+            self.river_to = 49;
+            return None;""")),
+    M("c04-scope-swapped", ["C04"], (FE, "        self.turn_to = turn_to;\n        self.river_to = river_to;", "        self.turn_to = river_to;\n        self.river_to = turn_to;")),
+    M("c04-new-default", ["C04"], (FE, "            turn_to: 48,\n            river_to: 49,", "            turn_to: 47,\n            river_to: 49,")),
+    M("c04-exhaust-cmp", ["C04"], (FE, "if self.current_turn_index >= self.turn_to && self.current_river_index >= self.river_to {", "if self.current_turn_index >= self.turn_to && self.current_river_index >= self.turn_to {")),
+    M("c04-ctor-swapped", ["C04"], (FE, "            current_turn_index: evaluator.turn_from,\n            current_river_index: evaluator.river_from,", "            current_turn_index: evaluator.river_from,\n            current_river_index: evaluator.turn_from,")),
+    M("benign-c04-clear-before-none", ["C04"], (FE, """        if self.current_turn_index >= self.turn_to && self.current_river_index >= self.river_to {
+            return None;""", """        if self.current_turn_index >= self.turn_to && self.current_river_index >= self.river_to {
+            self.current_used_cards.clear();
+            return None;"""), benign=True),
+    M("c03-dup-card", ["C03"], (SD, "player[0], player[1], board[0], board[1], board[2], board[3], board[4],\n            ]\n            .into();", "player[0], player[1], board[0], board[1], board[2], board[3], board[3],\n            ]\n            .into();")),
+    M("c03-one-hole-checked", ["C03"], (SD, "if board.contains(&player[0]) || board.contains(&player[1]) {", "if board.contains(&player[0]) || board.contains(&player[0]) {")),
+    M("c03-flipped", ["C03"], (SD, "if power_index <= strongest_index {\n                if power_index < strongest_index {", "if power_index >= strongest_index {\n                if power_index > strongest_index {")),
+    M("c03-ties-dropped", ["C03"], (SD, "if power_index <= strongest_index {", "if power_index < strongest_index {")),
+    M("c03-no-clear-on-tie-path", ["C03"], (SD, "                    strongest_index = power_index;\n                    winner_indexes.clear();", "                    strongest_index = power_index;\n                    if i > 1 { winner_indexes.clear(); }")),
+    M("c03-first-seat-wins-ties", ["C03"], (SD, "                winner_indexes.insert(i);", "                if i == 0 || power_index < u16::MAX { winner_indexes.insert(i); }")),
+    M("c03-init-not-max", ["C03"], (SD, "let mut strongest_index = u16::MAX;", "let mut strongest_index = 7000;")),
+    M("c03-winner-len-skip", ["C03"], (SD, "        for player in &self.players {\n            if player.win {", "        for player in self.players.iter().skip(1) {\n            if player.win {")),
+    M("c03-and-instead-of-or", ["C03"], (SD, "if board.contains(&player[0]) || board.contains(&player[1]) {", "if board.contains(&player[0]) && board.contains(&player[1]) {")),
+    M("benign-c03-gt-form", ["C03"], (SD, "if power_index <= strongest_index {\n                if power_index < strongest_index {", "if strongest_index >= power_index {\n                if strongest_index > power_index {"), benign=True),
     M("c08-recursion", ["C08"], (FE, """        loop {
             if let Some(showdown) = self.next_deal()? {
                 return Some(showdown);
